@@ -60,9 +60,7 @@ func hSymField(tag string, i int) hFieldSpec {
 	f := hFieldSpec{Field: hFieldNames[i]}
 	f.TagName = hTagNames[vnChoice(tag+".tagname", len(hTagNames), i)]
 	f.TypeOnly = vnBool(tag+".typeonly", i)
-	if vnBool(tag+".sub", i) {
-		f.Sub = "s"
-	}
+	f.Sub = []string{"", "s", "Sx", "k=v"}[vnChoice(tag+".sub", 4, i)]
 	f.Unknown = vnBool(tag+".unknown", i)
 	f.EmptyTag = vnBool(tag+".emptytag", i)
 	f.T = []int{hTP0, hTP1, hTI}[vnChoice(tag+".type", 3, i)]
